@@ -95,4 +95,8 @@ type (
 var (
 	MetavarsWrite = metavars.Write
 	MetavarsRead  = metavars.Read
+	// MetavarsWriteFile is metavars.WriteFile.
+	MetavarsWriteFile = metavars.WriteFile
+	// MetavarsReadFile is metavars.ReadFile.
+	MetavarsReadFile = metavars.ReadFile
 )
